@@ -2,12 +2,15 @@
 resource tracker) through real ``Parallel`` calls with numpy arrays large enough to be memmapped.
 Interpreter: python3-vt (numpy) with PYTHONPATH = repo under test.
 
-usage: c20_parallel_np.py <scratch> normal|kill|kill-rel|kill-werror      -> one JSON line on stdout
+usage: c20_parallel_np.py <scratch> normal|kill|kill-rel|terminate-pending|kill-werror      -> one JSON line on stdout
 
 normal: two calls inside one ``with Parallel`` block, then a normal interpreter exit.
 kill  : the tasks block; the parent process is SIGKILLed in the middle of the call, then (loky workers
         outlive their parent until their idle timeout and keep the tracker pipe open) both workers.
 kill-rel: as kill, with JOBLIB_TEMP_FOLDER given as a relative name and the tracker started under another cwd.
+terminate-pending: MemmappingExecutor.terminate(kill_workers=False) while a submitted task whose argument was
+        dumped to a tracked temp file is still pending behind a blocking task (one worker): the pending user must
+        still find its file and return the right value.
 kill-werror: the same with ``python -W error`` (inherited by the tracker): known finding F18b.
 Observed: the workers see an existing memmap file under JOBLIB_TEMP_FOLDER while the call runs;
 after the parent is gone (and its workers and tracker have ended) nothing is left there.
@@ -54,6 +57,46 @@ print(json.dumps({"out1": out1, "out2": out2, "mid": mid, "tracker": _resource_t
 """
 
 
+WORKLOAD_TERMINATE = r"""
+import json, os, sys, time, threading
+import numpy as np
+from joblib.executor import get_memmapping_executor
+flag_dir = sys.argv[1]
+def blocker(flag_dir):
+    t0 = time.time()
+    while not os.path.exists(os.path.join(flag_dir, "go")) and time.time() - t0 < 20:
+        time.sleep(0.01)
+    return "unblocked"
+def user(a, flag_dir):
+    fn = getattr(a, "filename", None)
+    ok = bool(fn and os.path.exists(fn))
+    with open(os.path.join(flag_dir, "seen-%d" % os.getpid()), "w") as f:
+        json.dump({"filename": fn, "exists": ok}, f)
+    return float(a.sum())
+tmp = os.environ["JOBLIB_TEMP_FOLDER"]
+ex = get_memmapping_executor(1, max_nbytes=1000, context_id="ctxA")
+f1 = ex.submit(blocker, flag_dir)
+a = np.ones(30000)
+f2 = ex.submit(user, a, flag_dir)
+# wait until the argument of the pending task has been dumped (and registered) by the feeder thread
+t0 = time.time()
+def dumped():
+    return [os.path.join(d, x) for d, _, fs in os.walk(tmp) for x in fs]
+while not dumped() and time.time() - t0 < 10:
+    time.sleep(0.01)
+before = dumped()
+threading.Timer(1.0, lambda: open(os.path.join(flag_dir, "go"), "w").close()).start()
+ex.terminate(kill_workers=False)
+res = {}
+for name, f in (("f1", f1), ("f2", f2)):
+    try:
+        res[name] = f.result(timeout=30)
+    except BaseException as e:
+        res[name] = "EXC %s: %s" % (type(e).__name__, str(e)[:200])
+print(json.dumps({"before": [os.path.basename(x) for x in before], "res": res, "after": dumped()}))
+"""
+
+
 def gone(pid):
     try:
         with open("/proc/%d/stat" % pid) as f:
@@ -73,7 +116,7 @@ def main():
     env = dict(os.environ, JOBLIB_TEMP_FOLDER="tmp" if mode == "kill-rel" else tmpf)
     errf = open(os.path.join(base, "stderr"), "wb")
     wflags = ["-W", "error"] if mode == "kill-werror" else []
-    p = subprocess.Popen([sys.executable] + wflags + ["-c", WORKLOAD, flags, mode], env=env, stdout=subprocess.PIPE, stderr=errf,
+    p = subprocess.Popen([sys.executable] + wflags + ["-c", WORKLOAD_TERMINATE if mode == "terminate-pending" else WORKLOAD, flags, mode], env=env, stdout=subprocess.PIPE, stderr=errf,
                          stdin=subprocess.DEVNULL, cwd=base)
     res = {"mode": mode, "flags": []}
 
@@ -123,6 +166,8 @@ def main():
                 time.sleep(0.05)
         res["left"] = sorted(os.listdir(tmpf))
         res["waited_s"] = round(time.time() - t0, 2)
+    elif mode == "terminate-pending":
+        pass  # handled below (own workload)
     else:
         try:
             out, _ = p.communicate(timeout=60)
@@ -147,6 +192,17 @@ def main():
         t0 = time.time()
         while os.listdir(tmpf) and time.time() - t0 < 5:
             time.sleep(0.05)
+        res["left"] = sorted(os.listdir(tmpf))
+    if mode == "terminate-pending":
+        try:
+            out, _ = p.communicate(timeout=60)
+            res["workload"] = json.loads(out.decode().strip().splitlines()[-1])
+        except subprocess.TimeoutExpired:
+            p.kill()
+            res["flags"].append("workload-timeout")
+        except Exception:  # noqa
+            res["flags"].append("no-output")
+        res["seen"] = seen()
         res["left"] = sorted(os.listdir(tmpf))
     errf.close()
     try:
